@@ -189,6 +189,8 @@ func main() {
 	}
 
 	// ---- accessors (generated from the package-level variables of the files actually compiled) ----------
+	hasExpChain = !small && findMethod(cur["internal/field"], "expPMin3Div4")
+
 	for _, p := range pkgs {
 		vars := packageVars(cur[p.dir])
 		gen := filepath.Join(*out, "verif_accessor_"+p.name+".go")
@@ -335,6 +337,28 @@ func packageVars(files map[string]string) []string {
 	return vars
 }
 
+// hasExpChain is set when internal/field declares the method expPMin3Div4 (so that the accessor can expose it).
+var hasExpChain bool
+
+func findMethod(files map[string]string, name string) bool {
+	fset := token.NewFileSet()
+
+	for _, n := range sortedKeys(files) {
+		f, err := parser.ParseFile(fset, files[n], nil, parser.SkipObjectResolution)
+		if err != nil {
+			continue
+		}
+
+		for _, d := range f.Decls {
+			if fd, ok := d.(*ast.FuncDecl); ok && fd.Recv != nil && fd.Name.Name == name {
+				return true
+			}
+		}
+	}
+
+	return false
+}
+
 func accessorSource(p pkgInfo, vars []string, verif string) []byte {
 	var b bytes.Buffer
 
@@ -347,6 +371,11 @@ func accessorSource(p pkgInfo, vars []string, verif string) []byte {
 		b.Write(t)
 	} else {
 		fmt.Fprintf(&b, "package %s\n\nimport \"fmt\"\n", p.name)
+	}
+
+	if p.name == "field" && hasExpChain {
+		b.WriteString("\n// VerifExpPMin3Div4 calls the private addition chain x^((p-3)/4).\n")
+		b.WriteString("func VerifExpPMin3Div4(z, x *Element) *Element { return z.expPMin3Div4(x) }\n")
 	}
 
 	b.WriteString("\n// VerifGlobals renders every package-level variable of this package (generated from the current tree).\n")
